@@ -174,6 +174,16 @@ impl<'tcx> Ex<'tcx> {
                 s.push_str(",\"promoted\":true");
             }
         }
+        // a reference / pointer to a `static` item: name it, and say whether writes can go through it
+        // (`static mut`, or a type with interior mutability) — ambient state a function may read or write
+        if let mir::Const::Val(mir::ConstValue::Scalar(rustc_middle::mir::interpret::Scalar::Ptr(ptr, _)), _) = c.const_ {
+            let (prov, _) = ptr.prov_and_relative_offset();
+            if let Some(rustc_middle::mir::interpret::GlobalAlloc::Static(sdid)) = tcx.try_get_global_alloc(prov.alloc_id()) {
+                let sty = tcx.type_of(sdid).instantiate_identity().skip_norm_wip();
+                let frozen = sty.is_freeze(tcx, env) && !tcx.is_mutable_static(sdid);
+                let _ = write!(s, ",\"static\":{},\"static_ty\":{},\"static_frozen\":{}", esc(&cpath(tcx, sdid)), esc(&tystr(tcx, sty)), frozen);
+            }
+        }
         if ty.is_bool() || ty.is_integral() || ty.is_char() {
             if let Some(v) = c.const_.try_eval_scalar_int(tcx, env) {
                 let sz = v.size();
@@ -310,6 +320,7 @@ impl<'tcx> Ex<'tcx> {
                 let a: Vec<String> = ops.iter().map(|o| self.operand(owner, body, o)).collect();
                 format!("{{\"k\":\"agg\",\"ak\":\"{}\"{},\"a\":[{}]}}", kname, extra, a.join(","))
             }
+            Rvalue::ThreadLocalRef(did) => format!("{{\"k\":\"tls\",\"static\":{}}}", esc(&cpath(tcx, *did))),
             other => format!(
                 "{{\"k\":\"other\",\"d\":{}}}",
                 esc(&format!("{:?}", other).chars().take(80).collect::<String>())
